@@ -125,6 +125,7 @@ func sameSS(got, want map[string][]int, open map[string]bool) bool {
 // a step with op == -1 is the nested in-place mutation: take the stream under key "k" out of stream
 // set #r and Remove(0) it (interface{} family only).
 func runStreamSets(family string, ops []ssop, prog []step) (fail, clause, key string) {
+	lib.Beat(nil) // progress mark for the hang watchdog (every replay)
 	mk := coll.NewGSS
 	if family == "interface{}" {
 		mk = coll.NewISS
